@@ -129,3 +129,4 @@ INT_RETS = [
     Ret("ir_unit_fmt", "Result<(), std::fmt::Error>", "if st & 1 == 0 { Err(std::fmt::Error) } else { Ok(()) }", "ret.dg()", int_result=True, c_kind="int"),
 ]
 INT_RET = {x.key: x for x in INT_RETS}
+INT_RET["ir_u64_io_alias"] = Ret("ir_u64_io_alias", "AliasRes<u64, std::io::Error>", INT_RET["ir_u64_io"].expr, "ret.dg()", int_result=True, c_kind="int")
